@@ -111,6 +111,7 @@ class Harness(object):
         self.failed_calls = 0
         self.in_session = False
         self.trace = []
+        self.obs = []
         self._introspect()
 
     def keyed_sc(self, ent, sc):
@@ -142,10 +143,19 @@ class Harness(object):
         self.ghost_pks = set()         # (entity, pk) of objects deleted in this transaction and not yet flushed
         self.failed_calls = 0          # modifying calls that raised in this transaction
         self.trace.append(('-- session begins', '', None))
+        self.session_no = getattr(self, 'session_no', -1) + 1
+        last = self.session_no == len(self.program['sessions']) - 1
+        if self.variant.get('preload') is not None and (last or not self.variant.get('last_session_only')):
+            preload = self.variant['preload']
         if preload:
             for ename in sorted(self.classes):
                 cls = self.classes[ename]
-                for obj in cls.select()[:]:
+                q = cls.select()
+                if self.variant.get('prefetch'):
+                    rel_attrs = [getattr(cls, en['attr']) for en, r in self.model.rel_ends_of(ename)]
+                    if rel_attrs:
+                        q = q.prefetch(*rel_attrs)
+                for obj in q[:]:
                     h = self.handle_of(obj)
                     if h is not None:
                         self.pobj[h] = obj
@@ -852,10 +862,49 @@ class Harness(object):
         from pony.orm import select, count, ObjectNotFound, MultipleObjectsFoundError
         _, kc, a, b, c = (list(op) + [0, 0, 0, 0])[:5]
         kinds = ['attr', 'coll', 'len', 'count', 'in', 'isempty', 'getpk', 'getattr', 'exists', 'selectkw', 'selectlambda',
-                 'countall', 'agg', 'todict', 'selectref', 'iterent']
+                 'countall', 'agg', 'todict', 'selectref', 'iterent', 'scancoll', 'scanref']
         kind = kinds[kc % len(kinds)]
         st = self.model.cur
         self.bump('read:' + kind)
+        if kind in ('scancoll', 'scanref'):
+            # touch the same relationship of every object of one entity: the batch-loading / prefetch path
+            ents = self.spec['entities']
+            e = ents[a % len(ents)]
+            ename = e['name']
+            cls = self.classes[ename]
+            rels = [(en, r) for en, r in self.model.rel_ends_of(ename) if en['many'] == (kind == 'scancoll')]
+            if not rels:
+                return
+            end, rev = rels[b % len(rels)]
+            q = select(x for x in cls)
+            if self.variant.get('prefetch'):
+                q = q.prefetch(getattr(cls, end['attr']))
+            objs = sorted(q[:], key=lambda x: repr(x.get_pk()))
+            if c % 2:
+                objs.reverse()
+            self.learn_pks()
+            for x in objs:
+                hx = self.handle_of(x)
+                if hx is None or hx not in st.objs:
+                    raise Fail('C10', 'select over %s returned %s which the session state does not contain' % (ename, self.ident(x)))
+                val = getattr(x, end['attr'])
+                items = list(val) if end['many'] else ([] if val is None else [val])
+                got = set(self.handle_of(i) for i in items)
+                exp = self.model.partners(st, hx, end)
+                self.obs.append((kind, ename, end['attr'], self.pk_of(hx), sorted(repr(self.pk_of(i)) for i in exp)))
+                if got != exp:
+                    raise Fail('C10', 'scanning %s.%s: h%d has %s, session state says %s'
+                               % (ename, end['attr'], hx, sorted(map(str, got)), sorted(exp)))
+                if not end['many'] and val is not None:
+                    # reading a scalar of the referenced object loads it (possibly together with its siblings)
+                    tent = st.objs[exp and next(iter(exp))]['ent'] if exp else None
+                    for sc in self.model.ents[end['target']]['scalars'][:2]:
+                        gotv = getattr(val, sc['name'])
+                        expv = st.objs[next(iter(exp))]['vals'].get(sc['name'])
+                        if gotv != expv:
+                            raise Fail('C10', 'scanning %s.%s: %s.%s reads %r, session state is %r'
+                                       % (ename, end['attr'], self.ident(val), sc['name'], gotv, expv))
+            return
         if kind in ('attr', 'coll', 'len', 'count', 'in', 'isempty', 'todict'):
             h = self.pick_live(a)
             if h is None:
